@@ -20,7 +20,7 @@ def gen(rng, tier):
         codec = iu.CODECS[i % len(iu.CODECS)]
         hexbm = (i // len(iu.CODECS)) % 2 == 1
         if i % 3 == 2:
-            cfg = iu.gen_config(rng, allbits=(i % 9 == 8))
+            cfg = iu.gen_config(rng, allbits=(i % 9 == 8), modelled_only=True)   # the theorem's domain: wf_cfgb
             m = iu.rand_message(rng, cfg, codec)
             cases.append({'cfg': cfg, 'codec': codec, 'hex': hexbm, 'msg': iu.dict_text(m)})
         else:
@@ -133,7 +133,7 @@ def judge(case, io_, mo):
             return ps
         if mo[0] != io_['dumps']:
             ps.append({'kind': 'corr', 'sig': 'dumps', 'msg': 'dumps differs from model: %s vs %s' % (io_['dumps'][:120], mo[0][:120])})
-        elif len(mo) > 1 and (not mo[1].startswith('OK ') or iu.canon_entries(mo[1][3:]) != iu.canon_entries(lo[3:])):
+        elif len(mo) > 1 and (not mo[1].startswith('OK ') or iu.canon_entries(mo[1][3:], drop_other=True) != iu.canon_entries(lo[3:], drop_other=True)):
             ps.append({'kind': 'corr', 'sig': 'loads', 'msg': 'loads differs from model: %s vs %s' % (lo[:150], mo[1][:150])})
     return ps
 
